@@ -139,6 +139,8 @@ class Interp:
         self.table_env = {}
         self._table_cache = {}
         self.integrals = {}
+        self.n_objects = 0
+        self.roots = {}               # root atom -> polynomial coefficients (highest power first)
         self.prefixes = None
 
     # ------------------------------------------------------------------
@@ -198,7 +200,12 @@ class Interp:
         env = {}
         if self_obj is not None:
             first = (fn.args.posonlyargs + fn.args.args)[0].arg
-            env[first] = self_obj
+            if isinstance(self_obj, ClassInfo):
+                env[first] = self_obj
+            elif isinstance(self_obj, Obj) and any(ast.unparse(d) == 'classmethod' for d in fn.decorator_list):
+                env[first] = self_obj.ci
+            else:
+                env[first] = self_obj
         args = list(args)
         kwargs = dict(kwargs)
         pos_names = [x.arg for x in fn.args.posonlyargs + fn.args.args]
@@ -762,19 +769,23 @@ class Frame:
         raise Unsupported('expression %s' % type(n).__name__, n, self.module.relpath)
 
     def listcomp(self, n):
-        if len(n.generators) != 1 or n.generators[0].ifs:
+        if len(n.generators) != 1:
             raise Unsupported('comprehension form', n, self.module.relpath)
         g = n.generators[0]
         it = self.ev(g.iter)
         if isinstance(it, Elem):
             sub = Frame(self.I, self.module, dict(self.env), self.owner, self.self_obj)
             sub.assign(g.target, it.r)
+            for cond in g.ifs:
+                if not self.I.truth(sub.ev(cond), cond):
+                    raise Unsupported('filter rejects the generic element', n, self.module.relpath)
             return Elem(sub.ev(n.elt))
         out = []
         for item in self.iter_items(it, n):
             sub = Frame(self.I, self.module, dict(self.env), self.owner, self.self_obj)
             sub.assign(g.target, item)
-            out.append(sub.ev(n.elt))
+            if all(self.I.truth(sub.ev(cond), cond) for cond in g.ifs):
+                out.append(sub.ev(n.elt))
         return ListV(out)
 
     def subscript(self, n):
@@ -842,7 +853,10 @@ class Frame:
         if isinstance(base, ClassInfo):
             got = I.repo.find_method(base, n.attr, missing_ok=True)
             if got:
-                return FuncRef(got[0].module, got[1], None, got[0])
+                fr_ = FuncRef(got[0].module, got[1], None, got[0])
+                if any(ast.unparse(d) == 'classmethod' for d in got[1].decorator_list):
+                    fr_.self_obj = base
+                return fr_
         raise Unsupported('attribute %s of %r' % (n.attr, base), n, self.module.relpath)
 
     def obj_attr(self, obj, attr, node=None):
@@ -970,12 +984,20 @@ class Frame:
             qual = (fv.owner.qual + '.' if fv.owner else fv.module.name + '.') + fv.fn.name
             if qual in I.opaque_funcs:
                 return I.opaque_funcs[qual](I, self, args, kwargs, n)
-            if fv.self_obj is not None and fv.fn.name in fv.self_obj.opaque_methods:
+            if isinstance(fv.self_obj, Obj) and fv.fn.name in fv.self_obj.opaque_methods:
                 return fv.self_obj.opaque_methods[fv.fn.name](I, fv.self_obj, args, kwargs)
             is_static = any(ast.unparse(d) in ('staticmethod',) for d in fv.fn.decorator_list)
             return I.call_function(fv.module, fv.fn, args, kwargs,
                                    self_obj=None if is_static else fv.self_obj,
                                    owner=fv.owner, name=qual)
+        if isinstance(fv, ClassInfo):
+            I.n_objects += 1
+            o = Obj('%s#%d' % (fv.name, I.n_objects), fv, closed=True)
+            got = I.repo.find_method(fv, '__init__', missing_ok=True)
+            if got:
+                I.call_function(got[0].module, got[1], args, kwargs, self_obj=o, owner=got[0],
+                                name=got[0].qual + '.__init__')
+            return o
         if isinstance(fv, Builtin):
             return builtin_call(I, self, fv.name, args, kwargs, n)
         if isinstance(fv, NativeRef):
@@ -1193,6 +1215,9 @@ def builtin_call(I, fr, name, args, kwargs, n):
             else:
                 raise Unsupported('isinstance against %r' % (x,), n)
         return res
+    if name in ('min', 'max') and len(args) == 1 and isinstance(args[0], Elem) and isinstance(args[0].r, Rat):
+        nm = '%s{%r}' % (name.upper(), args[0].r)
+        return I.D.sym(nm)
     if name in ('min', 'max'):
         vals = args[0].items if len(args) == 1 and isinstance(args[0], ListV) else args
         best = vals[0]
@@ -1409,9 +1434,44 @@ def _np_prod(I, fr, args, kwargs, n):
     raise Unsupported('np.prod operand', n)
 
 
+def _np_linspace(I, fr, args, kwargs, n):
+    lo = _arg(args, kwargs, 0, 'start')
+    hi = _arg(args, kwargs, 1, 'stop')
+    num = _arg(args, kwargs, 2, 'num', None)
+    return Elem(I.D.sym('linspace(%r,%r,%r)' % (lo, hi, num)))
+
+
+def _isclass(I, fr, args, kwargs, n):
+    return isinstance(args[0], ClassInfo)
+
+
+def _np_roots(I, fr, args, kwargs, n):
+    co = _arg(args, kwargs, 0, 'p')
+    if not isinstance(co, ListV):
+        raise Unsupported('np.roots operand', n)
+    name = 'ROOT#%d' % (len(I.roots) + 1)
+    I.roots[name] = [I.num(x) for x in co.items]
+    I.D.kind[name] = 'root'
+    return Elem(Rat.atom(name))
+
+
+def _np_isreal(I, fr, args, kwargs, n):
+    v = args[0]
+    if isinstance(v, Rat):
+        return True       # the analysis follows the real roots
+    raise Unsupported('np.isreal operand', n)
+
+
 def _np_minmax(which):
     def h(I, fr, args, kwargs, n):
         v = _arg(args, kwargs, 0, 'a')
+        if isinstance(v, Elem) and isinstance(v.r, Rat) and v.r.is_monomial():
+            at = list(v.r.atoms())
+            if len(at) == 1 and at[0] in I.roots and v.r.eq(Rat.atom(at[0])):
+                name = '%s{%s}' % (which.upper(), at[0])
+                I.roots[name] = I.roots[at[0]]
+                I.D.kind[name] = 'root'
+                return Rat.atom(name)
         if isinstance(v, ListV) and v.items:
             best = v.items[0]
             for x in v.items[1:]:
@@ -1456,6 +1516,9 @@ def _np_append(I, fr, args, kwargs, n):
 def _np_concatenate(I, fr, args, kwargs, n):
     seq = args[0]
     out = []
+    if any(isinstance(x, Elem) for x in seq.items):
+        return Elem(I.D.sym('concat(%s)' % ','.join(repr(x.r) if isinstance(x, Elem) else repr(x)
+                                                      for x in seq.items)))
     for x in seq.items:
         if not isinstance(x, ListV):
             raise Unsupported('np.concatenate operand', n)
@@ -1656,6 +1719,11 @@ NATIVE = {
     'numpy.prod': _np_prod,
     'numpy.append': _np_append,
     'numpy.argmax': _np_argmax,
+    'numpy.roots': _np_roots,
+    'numpy.linspace': _np_linspace,
+    'inspect.isclass': _isclass,
+    'numpy.isreal': _np_isreal,
+    'numpy.real': _identity,
     'numpy.min': _np_minmax('min'),
     'numpy.max': _np_minmax('max'),
     'numpy.concatenate': _np_concatenate,
